@@ -44,9 +44,17 @@ def run(ctx: Ctx):
             cfg.simulation.tau_shower.etau_frac = frac
             tau = taus_mod.Taus(cfg)
             betas = np.radians(rng.uniform(0.0, 42.0, n))
-            betas[:3] = [0.0, np.radians(42.0), np.radians(1.0)]
             loge = rng.uniform(6.0, 12.0, n)
-            loge[:4] = [6.0, 12.0, 6.0, 12.0]
+            # boundary stream: table-edge angles (exactly the first/last node, 42 deg, 0) x table-edge and low energies
+            gb = tau.tau_cdf_grid["beta_rad"]
+            edge_b = [0.0, float(gb[0]), float(gb[-1]), float(np.radians(42.0)), float(np.radians(1.0)), float(np.nextafter(gb[-1], 0.0))]
+            edge_e = [6.0, 6.25, 7.0, 9.0, 12.0]
+            kb = 0
+            for eb in edge_b:
+                for ee in edge_e:
+                    betas[kb], loge[kb] = eb, ee
+                    kb += 1
+            ctx.count("taus_boundary", kb)
             tb, tl, te, se, pe = tau(betas, loge)
             lines = [f"kin {f2h(e)} {f2h(frac)}" for e in te]
             out = run_driver(lines)
